@@ -2,6 +2,8 @@ package sym
 
 import (
 	"fmt"
+	"os"
+	"strings"
 	"time"
 
 	"golang.org/x/tools/go/ssa"
@@ -209,9 +211,21 @@ func (e *Engine) Explore(init *State) {
 						continue
 					}
 					x.Layer = layer + 1
+					if len(e.Witnesses) < e.Cfg.MaxWitness && !x.Multi && len(x.Threads) == 1 && x.Threads[0].Status == TDone {
+						e.sampleWitness(x) // before merging: the log belongs to exactly this path
+					}
 					if !x.Multi && x.thread().Status == TRun && !x.thread().Parked {
 						// cannot happen: run returns only at park/finish
 						panic("run returned with runnable unparked thread")
+					}
+					allDone := true
+					for _, t := range x.Threads {
+						if t.Status == TRun {
+							allDone = false
+						}
+					}
+					if allDone {
+						e.Stats.Paths++
 					}
 					h := e.canon(x)
 					if old, ok := table[h]; ok {
@@ -235,6 +249,10 @@ func (e *Engine) Explore(init *State) {
 }
 
 func (e *Engine) stop() bool {
+	if e.sol.Err != nil {
+		e.inconclusive("solver failure: %v", e.sol.Err)
+		return true
+	}
 	if !e.Cfg.Deadline.IsZero() && time.Now().After(e.Cfg.Deadline) {
 		e.inconclusive("job wall-clock limit reached")
 		return true
@@ -273,7 +291,9 @@ func (e *Engine) applyOption(s *State, op option, layer, idx int) {
 
 // terminal handles a state in which nothing can move.
 func (e *Engine) terminal(st *State) {
-	e.Stats.Paths++
+	if len(st.Threads) > 0 {
+		e.Stats.Paths++ // ends with blocked threads
+	}
 	for k, v := range st.Cuts {
 		e.CutsTotal[k] += int64(v)
 	}
@@ -283,9 +303,7 @@ func (e *Engine) terminal(st *State) {
 			mainDone = false
 		}
 	}
-	if mainDone && len(e.Witnesses) < e.Cfg.MaxWitness {
-		e.sampleWitness(st)
-	}
+	_ = mainDone
 	for _, th := range st.Threads {
 		if th.ID == 0 && th.Status == TRun {
 			// the harness main thread never finished
@@ -321,11 +339,39 @@ func (e *Engine) sampleWitness(st *State) {
 	for _, r := range recs {
 		extras = append(extras, r.T)
 	}
-	res, m := e.sol.CheckModel(st.PC, nil, extras...)
-	if res != ResSat {
+	// prefer small buffers so that the witness can be replayed natively
+	var m *Model
+	for _, lim := range []int64{64, 4096, -1} {
+		small := e.tb.True
+		if lim >= 0 {
+			any := false
+			for _, r := range recs {
+				if r.Kind == "bytes" && !r.T.IsConst() {
+					small = e.tb.And(small, e.tb.SLe(r.T, e.tb.Int64(lim)))
+					any = true
+				}
+			}
+			if !any {
+				continue
+			}
+		}
+		res, m2 := e.sol.CheckModel(st.PC, small, extras...)
+		if res == ResSat {
+			m = m2
+			break
+		}
+	}
+	if m == nil {
 		return
 	}
 	in := e.extractInputs(m, recs)
 	m.Release()
+	if os.Getenv("GOSYM_DEBUGPC") != "" {
+		var cs []string
+		for _, c := range flattenAnd(st.PC, nil, map[int32]bool{}) {
+			cs = append(cs, c.shortString(6))
+		}
+		fmt.Printf("WITNESS-PC %d inputs: %s\n", len(recs), strings.Join(cs, "\n     & "))
+	}
 	e.Witnesses = append(e.Witnesses, Witness{Inputs: in, Multi: st.Multi, Sched: e.schedList(st)})
 }
